@@ -823,6 +823,56 @@ def _calls_in_order(node):
     return out
 
 
+def _terminal(seq):
+    """how a statement list ends on every path: 'raise' / 'return' / 'mixed' / None (falls through)"""
+    for st in seq:
+        if isinstance(st, ast.Raise):
+            return "raise"
+        if isinstance(st, ast.Return):
+            return "return"
+        if isinstance(st, ast.If):
+            a, b = _terminal(st.body), _terminal(st.orelse)
+            if a is not None and b is not None:
+                return a if a == b else "mixed"
+            if a == "mixed" or b == "mixed":
+                return "mixed"
+            if (a == "return" or b == "return"):
+                return "mixed"
+            # one branch raises, the other falls through: keep scanning what follows
+        elif isinstance(st, (ast.For, ast.While, ast.Try, ast.With)):
+            if any(isinstance(x, (ast.Return, ast.Raise)) for x in ast.walk(st)):
+                return "mixed"
+    return None
+
+
+def _other_outcome_raises(fnode, ifstmt, pol):
+    """the outcome of `ifstmt` opposite to `pol` always leaves the function fnode by raise"""
+    def find(block):
+        for i, st in enumerate(block):
+            if st is ifstmt or getattr(st, "_orig", None) is ifstmt or getattr(ifstmt, "_orig", None) is st:
+                return block, i
+            for fld in ("body", "orelse", "finalbody"):
+                sub = getattr(st, fld, None)
+                if isinstance(sub, list) and sub and isinstance(sub[0], ast.stmt):
+                    r = find(sub)
+                    if r:
+                        return r
+            for h in getattr(st, "handlers", []) or []:
+                r = find(h.body)
+                if r:
+                    return r
+        return None
+    loc = find(fnode.body)
+    if loc is None:
+        return False
+    block, i = loc
+    other = list(ifstmt.orelse if pol else ifstmt.body)
+    t = _terminal(other)
+    if t is None and block is fnode.body:
+        t = _terminal(block[i + 1:])
+    return t == "raise"
+
+
 class _Scope:
     def __init__(self, func, env, target_stmt, parent):
         self.func = func
@@ -1141,8 +1191,15 @@ def walk_path(path, params=(), init_env=None, kill_attr_on_call=None, prog=None,
             # not control dependences: the helper returned normally on this path whichever way they went
             gm = getattr(callee_scope, "gmark", None)
             if gm is not None and len(guards) > gm:
-                closed.extend(guards[gm:])
+                keep = []
+                for g_ in guards[gm:]:
+                    # ... unless the other outcome of the test leaves the helper by raise: then reaching the caller's continuation does depend on it
+                    if isinstance(g_[3], ast.If) and callee_scope.func is not None and _other_outcome_raises(callee_scope.func.node, g_[3], g_[1]):
+                        keep.append(g_)
+                    else:
+                        closed.append(g_)
                 del guards[gm:]
+                guards.extend(keep)
             rv = callee_scope.ret if callee_scope.ret is not None else ast.Constant(value=None)
             if isinstance(s, ast.Assign):
                 for t in s.targets:
